@@ -284,6 +284,41 @@ Recovery(G, F, Fo, V, RA, n) ==
 LoopNodes(G) == {n \in Nodes(G) : K(G, n) \in {"star", "plus", "opt"} /\ C(G, n) # <<>>}
 
 (***************************************************************************)
+(* Rule-node elision (C05): whether the elision operator `^` is visited on *)
+(* no, some or every derivation of a construct.  Outcomes(n) is the set of *)
+(* possible answers to "was `^` visited while deriving n".                 *)
+(***************************************************************************)
+RECURSIVE ElideOutcomes(_, _)
+OrProduct(A, B) == {a \/ b : a \in A, b \in B}
+RECURSIVE CatOutcomes(_, _, _)
+CatOutcomes(G, cs, i) ==
+  IF i > Len(cs) THEN {FALSE} ELSE OrProduct(ElideOutcomes(G, cs[i]), CatOutcomes(G, cs, i + 1))
+ElideOutcomes(G, n) ==
+  LET k == K(G, n)  c == C(G, n) IN
+  CASE k = "elide" -> {TRUE}
+    [] k = "cat" -> CatOutcomes(G, c, 1)
+    [] k \in {"alt", "oc"} -> UNION {ElideOutcomes(G, c[i]) : i \in DOMAIN c}
+    [] k \in {"opt", "star"} -> IF c = <<>> THEN {FALSE} ELSE {FALSE} \cup ElideOutcomes(G, c[1])
+    [] k \in {"plus", "paren"} -> IF c = <<>> THEN {FALSE} ELSE ElideOutcomes(G, c[1])
+    [] OTHER -> {FALSE}
+ElisionClass(G, n) ==
+  LET o == ElideOutcomes(G, n) IN
+  IF o = {FALSE} THEN "none" ELSE IF o = {TRUE} THEN "uncond" ELSE "cond"
+
+(***************************************************************************)
+(* Binding powers of a Pratt rule (C07): a branch introduced earlier binds *)
+(* tighter than every later one; within a branch the left power is below   *)
+(* the right power unless the branch is right-associative.                  *)
+(* bp : sequence of <<left, right>> for the recursive branches in order,    *)
+(* ra : sequence of BOOLEAN (right-associative).                            *)
+(***************************************************************************)
+Max2(a, b) == IF a > b THEN a ELSE b
+Min2(a, b) == IF a < b THEN a ELSE b
+BindingPowersOK(bp, ra) ==
+  /\ \A i \in DOMAIN bp : IF ra[i] THEN bp[i][1] > bp[i][2] ELSE bp[i][1] < bp[i][2]
+  /\ \A i, j \in DOMAIN bp : i < j => Min2(bp[i][1], bp[i][2]) > Max2(bp[j][1], bp[j][2])
+
+(***************************************************************************)
 (* Everything at once, so that a model can bind it to one constant.        *)
 (***************************************************************************)
 Analysis(G) ==
